@@ -28,6 +28,8 @@
   deletion and listing into the same statements.
 -/
 import PercevalModel.Lemmas.C19
+import PercevalModel.Lemmas.C19TW
+import PercevalModel.Model.C19Crash
 
 namespace PM.C19
 open PM.SM
@@ -670,5 +672,131 @@ theorem delete_all_fails_for_dotted_names :
       [.content (some ⟨5, 3⟩), .done, .found true, .found true] := by decide
 
 end NS
+
+/-! ## 10. a crash between the server's answer and the write that follows it
+
+`execute_async` / `rerun` return with the identifier the server issued, then `_launch_jobs` calls
+`_write_to_file`.  A process that dies in between leaves the file as it was when the request left — which is the
+file of the process that dies *at* that server call, a stopping point the machine has — while the server has
+issued one more identifier.  That identifier is necessarily lost (no code has run that could save it); the
+statement is that it is the *only* one. -/
+
+/-- **crash_after_answer_loses_only_that_id.**  For every history and every answer: the file is untouched, the
+identifier in flight is not in it, and every other identifier ever issued is (unless retired by a rerun). -/
+theorem crash_after_answer_loses_only_that_id (dir : Bool) (ops : List Op) (hw : ∀ op ∈ ops, WFOp op) (g : Nat) :
+    let s := exec (step fixed) (create fixed dir) ops
+    (crashAfterAnswer s g).disk = s.disk ∧
+    (crashAfterAnswer s g).issued = (s.next + g) :: s.issued ∧
+    (s.next + g) ∉ diskIds (crashAfterAnswer s g) ∧
+    ∀ k ∈ (crashAfterAnswer s g).issued, k ≠ s.next + g → k ∉ (crashAfterAnswer s g).retired →
+      k ∈ diskIds (crashAfterAnswer s g) := by
+  intro s
+  have h : Inv s := exec_inv dir ops hw
+  have hd : (crashAfterAnswer s g).disk = s.disk := by simp [crashAfterAnswer, construct, h.disk]
+  have hi : (crashAfterAnswer s g).issued = (s.next + g) :: s.issued := by
+    simp [crashAfterAnswer, construct, h.disk]
+  have hr : (crashAfterAnswer s g).retired = s.retired := by simp [crashAfterAnswer, construct, h.disk]
+  have hids : diskIds (crashAfterAnswer s g) = ids s.mem := by
+    rw [← diskIds_eq h]; simp [diskIds, hd]
+  refine ⟨hd, hi, ?_, ?_⟩
+  · rw [hids]
+    intro hm
+    have := h.lt _ hm
+    omega
+  · intro k hk hne hnr
+    rw [hi] at hk
+    rw [hr] at hnr
+    rw [hids]
+    rcases List.mem_cons.1 hk with rfl | hk
+    · exact absurd rfl hne
+    · rcases h.surv k hk with h1 | h1
+      · exact absurd h1 hnr
+      · exact h1
+
+/-- the identifier in flight *is* lost — `accepted_ids_survive_refusal` does not extend to this stopping point:
+two jobs, the first accepted and saved, the process dies right after the server accepted the second -/
+theorem accepted_id_lost_when_crash_follows_answer :
+    let s := exec (step fixed) (create fixed true)
+      [Op.add plainJob none, .add plainJob none, launchPar [.accept 0]]
+    s.issued = [0] ∧ diskIds s = [0] ∧
+    (crashAfterAnswer s 2).issued = [3, 0] ∧ diskIds (crashAfterAnswer s 2) = [0] := by decide
+
+/-! ## 9. torn writes: a crash (or an I/O error) *inside* one `PersistentData.write_file` call
+
+`_write_to_file` replaces the group file in place: `open(path, "wt")` truncates it, then the JSON text is written.
+`TW.fileAt w old new c` is the file when the process stops after `c` events of that write (`Model/C19TW.lean`),
+`TW.reopen` what `JobGroup(name)` then does, `TW.accepts` = `json.loads` returns a dictionary.  The statements are
+about ALL texts `new` that `json.loads` accepts and that end in a non-blank character (what `json.dumps` of a
+dictionary produces: that the real file texts are such is part of the correspondence), all previous contents and
+all crash points. -/
+namespace TW
+
+/-- **torn_write_outcomes.**  Which crash points of an in-place write leave which file: before the `open` the
+previous file (whatever re-opening made of it before); from the `open` until the last character is written a file
+`json.loads` refuses — `JobGroup(name)` raises; afterwards the new group.  In particular the only crash points that
+leave a loadable file equal to a state of the group are the first and the last. -/
+theorem torn_write_outcomes (old : Option Text) (new : Text) (hn : accepts new = true) (hb : endsBlack new = true)
+    (c : Nat) :
+    reopen (fileAt .inPlace old new c) =
+      if c = 0 then reopen old else if c ≤ new.length then .raises else .loaded new := by
+  cases c with
+  | zero => simp [fileAt]
+  | succ k =>
+    by_cases hk : k + 1 ≤ new.length
+    · have : accepts (new.take k) = false := proper_prefix_refused new hn hb k hk
+      simp [fileAt, reopen, this, hk]
+    · have ht : new.take k = new := List.take_of_length_le (by omega)
+      simp [fileAt, reopen, ht, hn, hk]
+
+/-- **torn_write_never_misread.**  Whatever the crash point, re-opening never yields a group other than the one
+before the write or the one written: a torn file is refused, not misread. -/
+theorem torn_write_never_misread (old : Option Text) (new : Text) (hn : accepts new = true)
+    (hb : endsBlack new = true) (c : Nat) :
+    reopen (fileAt .inPlace old new c) = reopen old ∨ reopen (fileAt .inPlace old new c) = .raises ∨
+    reopen (fileAt .inPlace old new c) = .loaded new := by
+  rw [torn_write_outcomes old new hn hb c]
+  by_cases h0 : c = 0
+  · simp [h0]
+  · by_cases h1 : c ≤ new.length <;> simp [h0, h1]
+
+/-- **write_via_temp_atomic.**  A write that goes through a temporary file renamed onto the group file leaves, at
+every crash point, the previous group or the new one (the repair `fixes/C19-atomic-write.diff`; not what the code
+does). -/
+theorem write_via_temp_atomic (old : Option Text) (new : Text) (hn : accepts new = true) (c : Nat) :
+    reopen (fileAt .viaTemp old new c) = reopen old ∨ reopen (fileAt .viaTemp old new c) = .loaded new := by
+  by_cases h : c < new.length + 3
+  · left; simp [fileAt, h]
+  · right; simp [fileAt, h, reopen, hn]
+
+/-- non-vacuity of the hypotheses, and the recogniser at work: `{"a": [1, -2.5e3, "x\"}"], "b": {}}` is accepted,
+ends in `}`, and none of its 33 proper prefixes is -/
+example :
+    let t : Text := [123, 34, 97, 34, 58, 32, 91, 49, 44, 32, 45, 50, 46, 53, 101, 51, 44, 32, 34, 120, 92, 34, 125, 34,
+                     93, 44, 32, 34, 98, 34, 58, 32, 123, 125, 125]
+    accepts t = true ∧ endsBlack t = true ∧ (List.range t.length).all (fun k => !accepts (t.take k)) = true := by
+  decide
+
+/-- **in_place_write_not_atomic** (the code as it is): a group `{"k": 1}` on disk, the write of `{"k": 2}` stopped
+after the `open` and four characters: the group can no longer be opened — neither the previous nor the new state.
+With the write through a temporary file the previous group is found. -/
+theorem in_place_write_not_atomic :
+    let old : Text := [123, 34, 107, 34, 58, 32, 49, 125]
+    let new : Text := [123, 34, 107, 34, 58, 32, 50, 125]
+    reopen (some old) = .loaded old ∧ reopen (fileAt .inPlace (some old) new 5) = .raises ∧
+    reopen (fileAt .inPlace (some old) new 1) = .raises ∧
+    reopen (fileAt .viaTemp (some old) new 5) = .loaded old := by
+  decide
+
+/-- the property fails at those crash points: "re-opening the group yields the group in memory or the group as it
+was" does not hold for the in-place write — -/
+theorem reopen_after_crash_fails_for_in_place_write :
+    ¬ ∀ (old : Option Text) (new : Text) (c : Nat), accepts new = true →
+        reopen (fileAt .inPlace old new c) = reopen old ∨ reopen (fileAt .inPlace old new c) = .loaded new := by
+  intro h
+  have := h (some [123, 125]) [123, 125] 1 (by decide)
+  revert this
+  decide
+
+end TW
 
 end PM.C19
